@@ -359,10 +359,21 @@ func (c *xsyncMap) DeleteExpired() {
 	c.items.Range(func(k string, v interface{}) bool {
 		i := v.(item)
 		if i.expiredWithNow(now) {
-			c.items.Delete(k)
-			if ec != nil {
-				evictedItems = append(evictedItems, kv{k, i.v})
-			}
+			// The key may have been updated or removed since the snapshot was taken:
+			// delete it only if it still holds an expired item, under the bucket lock.
+			c.items.Compute(k, func(value interface{}, loaded bool) (interface{}, bool) {
+				if !loaded {
+					return nil, true
+				}
+				cur := value.(item)
+				if !cur.expiredWithNow(now) {
+					return value, false
+				}
+				if ec != nil {
+					evictedItems = append(evictedItems, kv{k, cur.v})
+				}
+				return nil, true
+			})
 		}
 		return true
 	})
